@@ -256,7 +256,7 @@ def run(ctx):
 def special(ctx, home):
     W = ctx.workdir
 
-    def case(name, build, expect_rc, sig, explain):
+    def case(name, build, expect_rc, sig, explain, once=True):
         base = os.path.join(W, "cases", "sp_" + name)
         shutil.rmtree(base, ignore_errors=True)
         pkgdir = build(base)
@@ -273,7 +273,7 @@ def special(ctx, home):
             ctx.violation("panic@%s" % site, "layout %s: crash" % name, {"case_dir": base, "stderr": cli.clean(p.stderr)[-1500:]})
         elif expect_rc is not None and p.rc != expect_rc:
             ctx.violation(sig, "layout %s: %s (rc=%s, %s)" % (name, explain, p.rc, cli.clean(p.stderr)[:300]), {"case_dir": base, "stderr": cli.clean(p.stderr)[-1500:]})
-        elif p.rc == 0 and len(parsed) != len(set(parsed)):
+        elif once and p.rc == 0 and len(parsed) != len(set(parsed)):
             ctx.violation("load-count", "layout %s: a namespace was parsed more than once: %s" % (name, parsed), {"case_dir": base})
         else:
             shutil.rmtree(base, ignore_errors=True)
@@ -373,6 +373,42 @@ def special(ctx, home):
                 ctx.violation("cpp-compile-failed:shared-import", "layout %s order %s: a package imported both directly and through another import: the generated C++ types.cc does not compile" % (nm, ordered), {"case_dir": base, "graph": adj, "order": ordered})
             else:
                 shutil.rmtree(base, ignore_errors=True)
+
+    # wide graphs: the root imports k packages that all import one base package (depth 2 whatever k is); the nesting limit is about depth, not size
+    for k in (9, 10, 12, 15):
+        n = k + 2
+        adj = {0: list(range(1, k + 1))}
+        for i in range(1, k + 1):
+            adj[i] = [k + 1]
+        rev = dict(adj)
+        rev[0] = list(range(k, 0, -1))
+        for nm, a in (("fan-%d" % k, adj), ("fan-%d-reversed" % k, rev)):
+            case(nm, lambda base, a=a, n=n: write_graph(base, n, a), 0, "rejected-valid-graph:fan",
+                 "a root with %d imports that each import one common base package (depth 2) is a valid graph" % k)
+    # two chains of 6 below the root sharing their last package: 12 packages, depth 6
+    adj = {0: [1, 6]}
+    for i in (1, 2, 3, 4):
+        adj[i] = [i + 1]
+    adj[5] = [11]
+    for i in (6, 7, 8, 9):
+        adj[i] = [i + 1]
+    adj[10] = [11]
+    case("two-arms-12", lambda base, adj=adj: write_graph(base, 12, adj), 0, "rejected-valid-graph:two-arms", "two import chains of 6 packages sharing their last package (12 packages, depth 6) are a valid graph")
+
+    # a previous version kept as a snapshot of the source tree: it imports *its own* copy of the library (same namespace, other directory);
+    # the current graph and the old graph are two separate, valid graphs
+    def snapshot(base, broken=False):
+        files = {"lib/_package.yml": "namespace: Lib\n", "lib/l.yml": "Item: !record\n  fields:\n    id: int\n    name: string?\n",
+                 "root/_package.yml": "namespace: Root\nimports:\n  - ../lib\nversions:\n  v1: ../history/v1/root\njson:\n  outputDir: ../out/json\n",
+                 "root/m.yml": "P: !protocol\n  sequence:\n    items: !stream\n      items: Lib.Item\n",
+                 "history/v1/lib/_package.yml": "namespace: Lib\n", "history/v1/lib/l.yml": "Item: !record\n  fields:\n    id: int\n",
+                 "history/v1/root/_package.yml": "namespace: Root\nimports:\n  - ../lib\n",
+                 "history/v1/root/m.yml": "P: !protocol\n  sequence:\n    items: !stream\n      items: Lib.Item\n"}
+        common.write_tree(base, files)
+        return os.path.join(base, "root")
+    case("version-snapshot-with-own-library", snapshot, 0, "rejected-valid-graph:version-snapshot",
+         "a previous version that imports its own copy of a library (same namespace as the current library, different directory) is not a namespace conflict",
+         once=False)   # the old graph has its own Root and Lib
 
     # chains around the limit: k packages in a line
     for k in (9, 10, 11, 12, 13):
